@@ -15,8 +15,15 @@ or not contactable, the hand-over of the result).
   result per lookup, never a second one; while no lookup runs the composition is the service model.
 * `result_size`: the result handed over has at most 16 records (`find_node`), resp. the number asked
   for (`find_node_predicate`).
+* `lookup_never_selects_a_peer_twice`: over every history, the peers the running lookup hands to the
+  service loop (for which `send_rpc_query` is called) are pairwise distinct.
+* `service_step_is_a_run`, `lookup_start_is_a_run`, `lookups_keep_table_policy`: the service component of
+  a composed step is a run of the service model on its own (the step, then inputs the loop generates
+  itself), so what is proved of all runs of `Svc` - the routing-table policy of C12 in particular -
+  holds with lookups running.
 -/
 import Discv5Model.Proofs.LookupLemmas
+import Discv5Model.Proofs.LookupLedger
 import Discv5Model.Props.C12
 
 namespace Discv5.Props.C09Service
@@ -199,6 +206,32 @@ theorem result_size (c : LCfg) (now : Nat) (k : LSvc) (i : LInput) (found : List
         cases numResults with
         | none => exact this
         | some n => exact this
+
+/-! ## No peer is handed out twice -/
+
+/-- **A lookup the service runs never selects the same peer twice.**  Follow any history of service
+steps and lookups from a state without a lookup, keeping the ledger `runSel` of the peers the running
+lookup's `next` handed to the service loop (`send_rpc_query` is called for exactly these, in this
+order; the ledger starts afresh with every lookup): while a lookup runs, no peer occurs twice in it -
+whatever answers, failures, late answers, records that cannot be contacted, table changes and user
+calls the history contains. -/
+theorem lookup_never_selects_a_peer_twice (c : LCfg) (s0 : Svc) (steps : List (Nat × LInput))
+    (hrun : (runSel c { svc := s0 } [] steps).1.q.isSome = true) :
+    (runSel c { svc := s0 } [] steps).2.Nodup := by
+  have h := runSel_ledger c steps { svc := s0 } [] (fun _ hq => by cases hq)
+  cases hq : (runSel c { svc := s0 } [] steps).1.q with
+  | none => rw [hq] at hrun; cases hrun
+  | some q => exact (h q hq).nodup
+
+/-- The ledger is not a separate run: its state component is the run of the composition. -/
+theorem runSel_is_run (c : LCfg) (steps : List (Nat × LInput)) :
+    ∀ (k : LSvc) (sel : List Nat), (runSel c k sel steps).1 = (LSvc.run c k steps).1 := by
+  induction steps with
+  | nil => intro k sel; rfl
+  | cons s rest ih =>
+    intro k sel
+    obtain ⟨now, i⟩ := s
+    exact ih _ _
 
 /-! ## Lookups are runs of the service model -/
 
